@@ -2,7 +2,7 @@
    Property theorems only; proofs are in Batch/Proofs*.v and Batch/Theorems.v.  "reachable q b s": some event trace of
    the acceptor LTS (any number of threads, any interleaving) leads from the initial state with max_queue_size q and
    max_export_batch_size b to s. *)
-From V Require Import Batch.Model Batch.Glue Batch.Spec Batch.ProofsA Batch.ProofsB Batch.Theorems Batch.TraceSpec.
+From V Require Import Batch.Model Batch.Glue Batch.Spec Batch.ProofsA Batch.ProofsB Batch.Theorems Batch.TraceSpec Batch.TraceSpec2.
 From Coq Require Import List Arith.
 Import ListNotations.
 
@@ -46,6 +46,25 @@ Theorem c01_accepted_trace_meets_drop_spec : forall q b tr s,
   run (init q b) tr = Some s -> Batch.Spec.c01_drop_only_when_full q (pevs tr) = [].
 Proof. exact accepted_trace_meets_spec_c01_drop. Qed.
 Print Assumptions c01_accepted_trace_meets_drop_spec.
+
+(* ... the exactly-once / queue-order checker (the ids the harness hands out are distinct; the model does not constrain them) *)
+Theorem c01_accepted_trace_meets_exactly_once_spec : forall q b tr s,
+  run (init q b) tr = Some s -> Batch.Spec.nodup (added_ids (pevs tr)) = true -> Batch.Spec.c01_exactly_once (pevs tr) = [].
+Proof. exact accepted_trace_meets_spec_c01_exactly_once. Qed.
+Print Assumptions c01_accepted_trace_meets_exactly_once_spec.
+
+Theorem c01_accepted_trace_exported_is_prefix_of_added : forall q b tr s, run (init q b) tr = Some s ->
+  is_prefix (exported_ids (pevs tr)) (added_ids (pevs tr)) = true /\
+  subset (exported_ids (pevs tr)) (added_ids (pevs tr)) = true /\
+  (Batch.Spec.nodup (added_ids (pevs tr)) = true -> Batch.Spec.nodup (exported_ids (pevs tr)) = true).
+Proof. exact accepted_trace_exported_prefix. Qed.
+Print Assumptions c01_accepted_trace_exported_is_prefix_of_added.
+
+(* ... and the flush-budget checker *)
+Theorem c01_accepted_trace_meets_budget_spec : forall q b tr s,
+  run (init q b) tr = Some s -> Batch.Spec.c01_no_drop_between_flushes q (pevs tr) = [].
+Proof. exact accepted_trace_meets_spec_c01_budget. Qed.
+Print Assumptions c01_accepted_trace_meets_budget_spec.
 
 Theorem c01_nonvacuous : exists s, run (init 1 1) demo_trace = Some s /\ In (2, 1, true) (fl_done s) /\ sh_done s <> [] /\
   dropped s = [12] /\ exported s = [[11]].
